@@ -4,6 +4,7 @@ open Common
 (* protocol (all numbers decimal, all byte strings hex; "-" is the empty string):
    H <seed> <hex>            MurmurHash64A
    N <seed> <hex>            MurmurHashNative
+   A <align> <seed> <hex>    MurmurHash64A and Native on the string placed at a start address = align (mod 16)
    M <seed> <len> <hex>      MurmurHash64A(key, len) with memory longer than len
    F <seed> <hex> ...        HashCallback(seed) over the pieces
    S <n> <hex> ...           shard index of the pieces among n shards
@@ -19,6 +20,7 @@ let () =
       | [ "H"; seed; h ] -> print_endline (string_of_z (murmur64a (bytes_of h) (z_of_string seed)))
       | [ "N"; seed; h ] -> print_endline (string_of_z (murmur_native (bytes_of h) (z_of_string seed)))
       | [ "R"; seed; h ] -> print_endline (string_of_z (murmur_ref (bytes_of h) (z_of_string seed)))
+      | [ "A"; _align; seed; h ] -> print_endline (string_of_z (murmur64a (bytes_of h) (z_of_string seed)))
       | [ "M"; seed; len; h ] -> print_endline (string_of_z (murmur64a_mem (bytes_of h) (z_of_string len) (z_of_string seed)))
       | "F" :: seed :: pieces -> print_endline (string_of_z (hash_fold (z_of_string seed) (List.map bytes_of pieces)))
       | "S" :: n :: pieces -> print_endline (string_of_z (shard_index (List.map bytes_of pieces) (z_of_string n)))
@@ -27,6 +29,6 @@ let () =
       | [ "X"; h ] -> print_endline (string_of_z (mmhsum (bytes_of h)))
       | "O" :: lines -> print_endline (string_of_z (order_independent_hash (List.map bytes_of lines)))
       | [ "C" ] ->
-        print_endline (Printf.sprintf "m=%s r=%s shard_seed=%s tail=%s" (string_of_z murmur_m) (string_of_z murmur_r) (string_of_z shard_seed)
-                         (String.concat "," (List.map (fun ((l, i), s) -> Printf.sprintf "%s:%d:%s" (string_of_z l) (int_of_nat i) (string_of_z s)) murmur_tail_cases)))
+        print_endline (Printf.sprintf "shard_seed=%s native_is_64a=%d default_seed_64a=%s" (string_of_z shard_seed)
+                         (if int_of_z native_64b_pointer_size <> 8 then 1 else 0) (string_of_z default_seed_64a))
       | _ -> print_endline "?")
